@@ -93,6 +93,9 @@ pub trait World: Sized + Sync {
     /// property id, e.g. "C17"
     const PROP: &'static str;
     /// wall-clock cap for minimising one violation, and violations after which a worker stops
+    /// C12 only: a world whose outcome differs between identical executions in fresh processes violates the property
+    /// itself (for the other properties such a world is harness trouble)
+    const NONDETERMINISM_IS_VIOLATION: bool = false;
     const MINIMISE_SECS: f64 = 120.0;
     const MAX_VIOLATIONS_PER_WORKER: usize = 3;
     fn generate(seed: u64, index: u64, tier: Tier) -> Self;
@@ -288,8 +291,31 @@ pub fn one_main<W: World>(args: &[String]) -> i32 {
     }
     let mut st = Stats::default();
     let v = run_isolated(&w, &mut st);
-    println!("DONE violation={}", v.violation.map(|x| x.class).unwrap_or_default());
+    println!("DONE hash={:016x} violation={}", v.log_hash, v.violation.map(|x| x.class).unwrap_or_default());
     0
+}
+
+/// `sim oneworld <file>`: run the world of a replay file once in this (fresh) process and print its event-log hash.
+pub fn oneworld_main<W: World>(v: &Value) -> i32 {
+    match W::from_json(&v["world"]) {
+        Ok(w) => {
+            let mut st = Stats::default();
+            let r = run_isolated(&w, &mut st);
+            println!("DONE hash={:016x} violation={}", r.log_hash, r.violation.map(|x| x.class).unwrap_or_default());
+            0
+        }
+        Err(_) => 2,
+    }
+}
+
+/// hashes and violation classes of `n` executions of run `index`, each in a fresh process
+fn fresh_runs(prop: &str, seed: u64, index: u64, tier: Tier, n: usize) -> Vec<String> {
+    let exe = std::env::current_exe().expect("current_exe");
+    (0..n).filter_map(|_| {
+        Command::new(&exe).arg("one").arg(prop).arg("--seed").arg(seed.to_string()).arg("--index").arg(index.to_string()).arg("--tier").arg(tier.name())
+            .stdin(Stdio::null()).stderr(Stdio::null()).output().ok()
+            .and_then(|o| String::from_utf8_lossy(&o.stdout).lines().find(|l| l.starts_with("DONE ")).map(|l| l.to_string()))
+    }).collect()
 }
 
 struct Merged {
@@ -523,7 +549,41 @@ fn parent_once<W: World>(tier: Tier, plan: &Plan, extra: &Extra) -> Option<i32> 
             }
         }
         if divergent > 0 {
-            return Some(2);
+            if !W::NONDETERMINISM_IS_VIOLATION {
+                return Some(2);
+            }
+            // For C12 a divergence between two executions of the same run IS the subject matter. Find out what it
+            // depends on: execute the first divergent run several times in fresh processes.
+            let idx = a.hashes.iter().find(|(i, h)| b.hashes.get(i).map(|h2| h2 != *h).unwrap_or(false)).map(|(i, _)| *i).unwrap_or(0);
+            let outs = fresh_runs(prop, seed, idx, tier, 5);
+            let distinct: BTreeSet<&String> = outs.iter().collect();
+            let exe = std::env::current_exe().expect("current_exe");
+            let world: Value = Command::new(&exe).arg("one").arg(prop).arg("--seed").arg(seed.to_string()).arg("--index").arg(idx.to_string()).arg("--tier").arg(tier.name())
+                .stdin(Stdio::null()).stderr(Stdio::null()).output().ok()
+                .and_then(|o| String::from_utf8_lossy(&o.stdout).lines().find(|l| l.starts_with("WORLD ")).and_then(|l| serde_json::from_str(&l[6..]).ok()))
+                .unwrap_or(Value::Null);
+            let _ = std::fs::create_dir_all(format!("{}/replays", verif_dir()));
+            let path = format!("{}/replays/{}-{}-selftest.json", verif_dir(), prop, mix(seed, idx));
+            let (class, kind, detail) = if distinct.len() > 1 {
+                ("nondeterministic_between_identical_executions", "fresh_process_repeat",
+                 format!("run index {}: the same world, executed {} times in fresh processes with schedule, heap, hash keys and faults fixed by the world, ended in {} different ways", idx, outs.len(), distinct.len()))
+            } else {
+                ("result_depends_on_process_history", "prefix_pair",
+                 format!("run index {}: executed as run number {} of one process and as run number {} of another (same seed, same world) it ends differently, although alone in a fresh process it is repeatable: state outlives a call and a thread", idx, idx + 1, idx / plan.workers.max(2) as u64 + 1))
+            };
+            let file = json!({"property": prop, "verif_seed": seed, "run_index": idx, "run_seed": mix(seed, idx), "class": class, "detail": detail,
+                "world": world, "replay_kind": kind, "tier": tier.name(),
+                "prefixes": [{"start": 0, "stride": 1, "index": idx}, {"start": idx % plan.workers.max(2) as u64, "stride": plan.workers.max(2), "index": idx}]});
+            let _ = std::fs::write(&path, serde_json::to_string_pretty(&file).unwrap());
+            println!("violation class={} detail={}", class, detail);
+            println!("VIOLATION property={} replay={}", prop, path);
+            let ev = json!({"property_id": prop, "tier": tier.name(), "seed": seed, "level": extra.level,
+                "coverage": {"evaluations": selftested, "distinct_nontrivial": 2, "rule": extra.rule, "samples": [world],
+                    "note": "the determinism self-test itself found the violation; the batch was not run"},
+                "assumptions": extra.assumptions, "wall_s": t0.elapsed().as_secs_f64(), "violations": 1});
+            let _ = std::fs::create_dir_all(format!("{}/evidence", verif_dir()));
+            let _ = std::fs::write(format!("{}/evidence/{}.json", verif_dir(), prop), serde_json::to_string_pretty(&ev).unwrap());
+            return Some(1);
         }
         println!("self-test: {} runs repeated in separate processes (1 and {} workers): identical event-log hashes", selftested, plan.workers.max(2));
     }
@@ -613,8 +673,23 @@ fn parent_once<W: World>(tier: Tier, plan: &Plan, extra: &Extra) -> Option<i32> 
                 c["tier"] = json!(tier.name());
                 confirmed_history.push(c);
             } else {
-                println!("HARNESS-ERROR a violation at run index {} did not reproduce in the same process nor when the worker's history was re-run: {}", v["run_index"], v["detail"]);
-                return Some(2);
+                // Not even the worker's history reproduces it. Last question: is this world deterministic at all? Run it a
+                // few times, each in a fresh process, with everything the simulator owns fixed by the world.
+                let idx = v["run_index"].as_u64().unwrap_or(0);
+                let outs = fresh_runs(prop, seed, idx, tier, 5);
+                let distinct: BTreeSet<&String> = outs.iter().collect();
+                if W::NONDETERMINISM_IS_VIOLATION && distinct.len() > 1 {
+                    let mut c = v.clone();
+                    c["class"] = json!("nondeterministic_between_identical_executions");
+                    c["detail"] = json!(format!("{} [the same world, executed {} times in fresh processes with schedule, heap, hash keys and faults fixed by the world, ended in {} different ways: the outcome depends on something outside the simulator's seams (real threads, a clock, OS state)]", v["detail"].as_str().unwrap_or(""), outs.len(), distinct.len()));
+                    c["replay_kind"] = json!("fresh_process_repeat");
+                    c["verif_seed"] = json!(seed);
+                    c["tier"] = json!(tier.name());
+                    confirmed_history.push(c);
+                } else {
+                    println!("HARNESS-ERROR a violation at run index {} did not reproduce in the same process nor when the worker's history was re-run: {}", v["run_index"], v["detail"]);
+                    return Some(2);
+                }
             }
         } else {
             m_violations.push(v.clone());
@@ -712,6 +787,43 @@ fn parent_once<W: World>(tier: Tier, plan: &Plan, extra: &Extra) -> Option<i32> 
 
 /// `sim replay <file>`: run exactly the recorded world in this fresh process.
 pub fn replay_main<W: World>(v: &Value) -> i32 {
+    if v["replay_kind"] == "fresh_process_repeat" {
+        // the finding is that identical executions differ: execute the world several times, each in a fresh process
+        let exe = std::env::current_exe().expect("current_exe");
+        let file = std::env::args().nth(2).unwrap_or_default();
+        let outs: Vec<String> = (0..8).filter_map(|_| Command::new(&exe).arg("oneworld").arg(&file).stdin(Stdio::null()).stderr(Stdio::null()).output().ok()
+            .and_then(|o| String::from_utf8_lossy(&o.stdout).lines().find(|l| l.starts_with("DONE ")).map(|l| l.to_string()))).collect();
+        let distinct: BTreeSet<&String> = outs.iter().collect();
+        println!("{} executions in fresh processes, {} distinct outcomes", outs.len(), distinct.len());
+        for d in &distinct {
+            println!("  {}", d);
+        }
+        if distinct.len() > 1 || outs.iter().any(|o| !o.trim_end().ends_with("violation=")) {
+            println!("VIOLATION property={} replay=(this file)", W::PROP);
+            return 1;
+        }
+        println!("no violation on this tree");
+        return 0;
+    }
+    if v["replay_kind"] == "prefix_pair" {
+        // the finding is that run i ends differently depending on what the process did before: re-run both histories
+        let exe = std::env::current_exe().expect("current_exe");
+        let mut outs = Vec::new();
+        for p in v["prefixes"].as_array().into_iter().flatten() {
+            let o = Command::new(&exe).arg("prefix").arg(W::PROP).arg("--seed").arg(v["verif_seed"].to_string()).arg("--start").arg(p["start"].to_string())
+                .arg("--stride").arg(p["stride"].to_string()).arg("--index").arg(p["index"].to_string()).arg("--tier").arg(v["tier"].as_str().unwrap_or("quick"))
+                .stdin(Stdio::null()).stderr(Stdio::null()).output();
+            let line = o.ok().and_then(|o| String::from_utf8_lossy(&o.stdout).lines().find(|l| l.starts_with("PREFIX-")).map(|l| l.chars().take(160).collect::<String>())).unwrap_or_default();
+            println!("history start={} stride={}: {}", p["start"], p["stride"], line);
+            outs.push(line);
+        }
+        if outs.len() == 2 && outs[0] != outs[1] {
+            println!("VIOLATION property={} replay=(this file)", W::PROP);
+            return 1;
+        }
+        println!("no violation on this tree");
+        return 0;
+    }
     if v["replay_kind"] == "worker_prefix" {
         let p = &v["prefix"];
         let args: Vec<String> = vec!["--seed".into(), v["verif_seed"].to_string(), "--start".into(), p["start"].to_string(),
